@@ -57,6 +57,15 @@ def run(chk):
                 break
     # alignments of fixed-size batches over whole runs (a value that is stale only inside a batch shows only at particular
     # offsets and only on runs where the estimate M grows a little late in the run: many moderately long runs)
+    for _ in range(18 if thorough else 6):      # an interrupted call inside a mixture of calls
+        n = rng.choice([1, 2])
+        lo, hi = H.random_box(rng, n)
+        case = {'n': n, 'lo': lo, 'hi': hi, 'objective': H.random_objective(rng, n, kinds=('sin', 'quad', 'cones'), lo=lo, hi=hi), 'r': 2.5, 'eps': rng.choice([1e-9, 0.02]),
+                'iters': rng.choice([30, 50]), 'density': None, 'fail_at': rng.randint(3, 14), 'exc': rng.choice(['RuntimeError', 'KeyboardInterrupt', 'SystemExit', 'ValueError'])}
+        fails = O.guarded(interrupted_then_continued, case)
+        chk.evaluations += 1
+        if fails:
+            found += chk.violation('batching', fails[0], {'kind': 'interrupted', 'case': case})
     for _ in range(12 if thorough else 4):      # the caller's objects are re-used for several solvers
         n = rng.choice([1, 2])
         lo, hi = H.random_box(rng, n)
@@ -109,6 +118,25 @@ def c11_with_reads(case):
     return []
 
 
+def interrupted_then_continued(case):
+    """one evaluation fails (exception or interrupt) in the middle of a mixture of calls; the caller catches it and goes on: the trial
+    sequence is the one of the undisturbed Solve (the failed point is simply tried again)"""
+    base = O.trajectory(dict(case, fail_at=None), [('solve',)])[0]
+    p, s = O.build(case)
+    for op in [('iter', 2), ('iter', 3), ('iter', 4), ('solve',), ('solve',)]:
+        try:
+            H.run_script(s, [op])
+        except BaseException as e:  # noqa
+            if isinstance(e, KeyboardInterrupt) and case.get('exc') != 'KeyboardInterrupt':
+                raise
+    tr = [tuple(y) for y, _ in p.log]
+    if tr != base:
+        i = next((j for j, (u, v) in enumerate(zip(tr, base)) if u != v), min(len(tr), len(base)))
+        return ['evaluation %d failed with %s, the caller went on: %d trials, first difference from the undisturbed run (%d trials) at trial %d'
+                % (case['fail_at'], case.get('exc'), len(tr), len(base), i + 1)]
+    return []
+
+
 def reused_objects(case):
     """the same SolverParameters object and the same Problem object used for several solvers, one after the other: every run is the same
     run, and the objects still say what the caller put in them"""
@@ -140,6 +168,8 @@ def reused_objects(case):
 
 
 def replay(chk, rp):
+    if rp.get('kind') == 'interrupted':
+        fails = O.guarded(interrupted_then_continued, rp['case']); print(fails); return not fails
     if rp.get('kind') == 'reuse':
         fails = O.guarded(reused_objects, rp['case']); print(fails); return not fails
     if rp.get('kind') == 'batches':
